@@ -105,6 +105,17 @@ func (c *collection) deleteWithFilter(
 			DocID:             docID,
 		}
 
+		parsedDocID, err := client.NewDocIDFromString(docID)
+		if err != nil {
+			return nil, err
+		}
+
+		// Remove the document from the secondary indexes before its field values are gone.
+		err = c.deleteIndexedDocWithID(ctx, parsedDocID)
+		if err != nil {
+			return nil, err
+		}
+
 		// Delete the document that is associated with this DS key we got from the filter.
 		err = c.applyDelete(ctx, primaryKey)
 		if err != nil {
